@@ -91,10 +91,13 @@ def tt_round(E, s):
     metas = (list(x.N), list(x.R), [list(c.shape) for c in x.cores])
     lst = x.cores
     tensors = list(x.cores)
+    rm0 = list(kw['rmax']) if isinstance(kw.get('rmax'), list) else None
     if eps is None:
         y = x.round(**kw)
     else:
         y = x.round(eps, **kw)
+    if rm0 is not None:
+        E.true('rmax_argument_intact', kw['rmax'] == rm0)
     E.true('is_tt', isinstance(y, E.tt.TT))
     E.true('new_object', y is not x and y.cores is not lst)
     E.true('kind', y.is_ttm == (M is not None))
